@@ -34,7 +34,7 @@ CONFIG = dict(
 )
 CONFIG.update(
     level_text=("Lean 4 theorems over an arbitrary ordered field with abstract exp: a candidate at least as good is always "
-                "accepted (u < 1); a worse one iff u < exp(-(f(cand)-f(cur))/T); explicit bounds 1-d/T <= p <= T/(T+d) giving "
+                "accepted without a draw; a worse one iff u < exp(-(f(cand)-f(cur))/T); explicit bounds 1-d/T <= p <= T/(T+d) giving "
                 "p -> 0 (T -> 0+) and p -> 1 (T -> inf) as order statements, monotone in T; stack frame (two singleton "
                 "populations -> survivor, rest untouched, 0/1 draws); Err/panic cases; n coolings give T*alpha^n; the number "
                 "of 64-bit generator words that accept is ceil(p*2^53)*2^11 (probability). ExpSpec is instantiated with "
@@ -42,7 +42,7 @@ CONFIG.update(
                 "around the decision threshold (K exact), seeded frequencies and template runs (O)."),
     level_note=("Trusted: Lean kernel; libm exp; rand's word->f64 mapping; harness + driver. Floating-point rounding of "
                 "(cur-cand)/T and exp is not modelled in the theorems (partial: rounding); the compiled model uses the same "
-                "IEEE operations as the code. Known finding (known_findings.d/C17.json): two equal +inf objective values give "
-                "inf - inf = NaN and the candidate is rejected; Lean counterexample accept_equal_inf_violates on the IEEE-like "
-                "carrier Ext F, partial form accept_better_or_equal_partial (finite values). T <= 0 is outside the quantifier."),
+                "IEEE operations as the code. Equal +inf objective values (p = exp(inf - inf) = NaN) are accepted by the `<=` "
+                "short-circuit (fixed in /repo ca95ba5; theorem accept_equal_inf on the IEEE-like carrier Ext F; the +inf/+inf "
+                "cases are generated on every run). T <= 0 is outside the quantifier."),
 )
